@@ -830,7 +830,7 @@ class Val(Contract):
 
     def post(self, c, r, x):
         d = {"V.value": Eq(r, c.v(x))}
-        pubs = [e.var for e in c.g.trace if isinstance(e, __import__("pyvc.ghost", fromlist=["Alloc"]).Alloc) and e.var.kind == "pub"]
+        pubs = [e.var for e in c.g.trace[getattr(c, "call_start", 0):] if isinstance(e, __import__("pyvc.ghost", fromlist=["Alloc"]).Alloc) and e.var.kind == "pub"]
         if pubs:       # body verification: the output wire is visible
             o = pubs[-1]
             d["V.output_value"] = modeq(o.h, c.v(x), c.p)
@@ -1621,7 +1621,7 @@ class AddConstraint(Contract):
     def post(self, c, r, v, w, y, check=True):
         from pyvc import ghost as gh
         prod = fmul(c.eva(v), c.eva(w))
-        cons = [e for e in c.g.trace if isinstance(e, gh.Con)]
+        cons = [e for e in c.g.trace[getattr(c, "call_start", 0):] if isinstance(e, gh.Con)]
         holds = And(*[c.g.holds_h(e) for e in cons])
         triple = (imul(c.v(v), c.v(w)) - c.v(y)) % c.p == 0
         d = {"V.none": r is None,
